@@ -103,7 +103,7 @@ def run(tier):
     common.replay_known(ck, opts={"gc": "never"})
     ck.sample({"sweep_program_tail": sweep[0][1][-600:]})
     return ck.finish("built-in sweep (%d calls: %d method names x %d pool receivers x arities 0-3), operator/statement sweep "
-                     "on ill-typed operands, %d stress programs, %d ill-typed generated programs; each on the hooked "
+                     "on ill-typed operands (incl. the same object in two roles of one operation; error contexts compared), %d stress programs, %d ill-typed generated programs and iterator-vs-mutation histories; each on the hooked "
                      "(checked), dev and ASan (unchecked) builds; non-trivial = distinct program run"
                      % (ncalls, len(names), len(hostile.POOL), len(stress), len(gen)))
 
